@@ -191,6 +191,7 @@ def run(ctx):
     bad = evaluate(ctx, cases)
     no_command(ctx)
     quoted_lines(ctx)
+    runs_when_read(ctx)
     import tempfile, shutil, os
     os.makedirs(os.path.join(fw.BUILD, "tmp"), exist_ok=True)
     kd = tempfile.mkdtemp(prefix="c20-", dir=os.path.join(fw.BUILD, "tmp"))
@@ -212,7 +213,11 @@ def quoted_lines(ctx):
     import os
     with tempfile.TemporaryDirectory(prefix="c20q-", dir=fw.BUILD) as td:
         for data, want_rc, want in ((b"'a b'  c\n  x y  \n\n\\ z\n", 0, [b"<a b  c>", b"<x y  >", b"< z>"]),
-                                    (b'"abc\n', 1, []), (b"ok\nit's\n", 1, None), (b"a\\\nb\n", 0, [b"<a\nb>"])):
+                                    (b'"abc\n', 1, []), (b"ok\nit's\n", 1, [b"<ok>"]), (b"a\\\nb\n", 0, [b"<a\nb>"]),
+                                    # a line is run when it has been read: the lines before an input error have been run
+                                    (b"a\nb\nit's\nd\n", 1, [b"<a>", b"<b>"]), (b'a\n"\n', 1, [b"<a>"]),
+                                    # a quoted string lies within its line
+                                    (b"x\n'a\nb'\n", 1, [b"<x>"])):
             rec = os.path.join(td, "rec")
             if os.path.exists(rec):
                 os.remove(rec)
@@ -220,11 +225,38 @@ def quoted_lines(ctx):
                                env=dict(xc.ENV, FUV_RECORD=rec), timeout=60)
             got = [fw.unhex(line.split()[1]) for line in open(rec)] if os.path.exists(rec) else []
             ctx.count(("quoted-lines", data), True, "quoted-lines")
-            # (whether the line before an input error is still run is not decided here: invocations start when the next argument arrives)
             if p.returncode != want_rc or (want is not None and got != want):
                 ctx.violation("xargs -I{} CMD '<{}>' on %r: exit %d, arguments %r; expected exit %d, %r" % (data, p.returncode, got, want_rc, want),
                               {"property": "C20", "kind": "quoted-lines", "input": fw.hexs(data), "exit": p.returncode, "arguments": [fw.hexs(g) for g in got],
                                "expected_exit": want_rc, "expected": None if want is None else [fw.hexs(w) for w in want]})
+
+
+def runs_when_read(ctx):
+    """the command for a line is run when the line has been read, not when the next one arrives: a producer that waits for the effect of
+    line 1 before it sends line 2 is not stuck"""
+    import subprocess
+    import tempfile
+    import time
+    import os
+    with tempfile.TemporaryDirectory(prefix="c20w-", dir=fw.BUILD) as td:
+        p = subprocess.Popen([fw.XARGS, "-I{}", "sh", "-c", "touch done.{}"], stdin=subprocess.PIPE, stdout=subprocess.DEVNULL, stderr=subprocess.DEVNULL,
+                             cwd=td, env=xc.ENV)
+        p.stdin.write(b"a\n")
+        p.stdin.flush()
+        seen = False
+        for _ in range(50):
+            if os.path.exists(os.path.join(td, "done.a")):
+                seen = True
+                break
+            time.sleep(0.1)
+        p.stdin.write(b"b\n")
+        p.stdin.close()
+        rc = p.wait(timeout=60)
+        ctx.count(("runs-when-read",), True, "runs-when-read")
+        if not seen or rc != 0 or not os.path.exists(os.path.join(td, "done.b")):
+            ctx.violation("xargs -I{} sh -c 'touch done.{}': five seconds after the line 'a' was written (and before the next line) done.a %s; exit %d"
+                          % ("exists" if seen else "does not exist: the line is held back until the next one has been read", rc),
+                          {"property": "C20", "kind": "runs-when-read", "first_line_run_before_second_written": seen, "exit": rc})
 
 
 def no_command(ctx):
